@@ -33,10 +33,11 @@ def build(scratch, release=False):
     return mine
 
 
-def run_native(scratch, fields, release=False):
+def run_native(scratch, fields, release=False, threads=None):
     exe = build(scratch, release)
     txt = "".join(f"{k}={v}\n" for k, v in fields.items())
-    p = subprocess.run([exe], input=txt, capture_output=True, text=True, timeout=120)
+    env = dict(os.environ, RAYON_NUM_THREADS=str(threads)) if threads else None
+    p = subprocess.run([exe], input=txt, capture_output=True, text=True, timeout=120, env=env)
     out = {}
     for l in p.stdout.splitlines():
         if "=" in l:
@@ -74,6 +75,10 @@ def replay(scratch, rp, ce, params, profiles=(False, True), variants=True):
             outs = {}
             for rel in profiles:
                 outs["release" if rel else "dev"] = run_native(scratch, fields, release=rel)
+            # schedule-dependent behaviour cannot be forced natively: repeated runs on thread pools of several sizes
+            for r_ in range(int(rp.get("par_runs", 0))):
+                th = (2, 3, 4, 8, 16)[r_ % 5]
+                outs[f"release/{th} threads #{r_}"] = run_native(scratch, fields, release=True, threads=th)
             verdicts = {k: judge(v) for k, v in outs.items()}
             ok = any(v[0] for v in verdicts.values())
             note = "; ".join(f"{k}: {v[1]}" for k, v in verdicts.items())
